@@ -175,6 +175,7 @@ API_PROPS = {
     "C18": (["C18"], (8, 2500), (16, 60000), "escape"),
     "C01": (["C01"], (16, 1500), (16, 40000), "spec"),
     "C12": (["C12"], (8, 8000), (16, 150000), "cps"),
+    "C20": (["C20"], (4, 400), (16, 20000), "searcher"),
 }
 
 def api_single(pat, flags, hay_hex):
@@ -197,8 +198,11 @@ def run_api(ctx):
     broken = list(fr["broken"])
     known = load_known()
     summary, mism, pv = {}, [], []
+    if stream == "searcher":
+        rc, out = build_harness("pattern")     # nightly toolchain, --features pattern
+        if rc != 0: broken.append("HARNESS-BUILD-FAILED (nightly, pattern feature): " + out[-400:])
     if not any("-BUILD-FAILED" in b for b in broken):
-        summary, mism, pv, errs = run_stream_shards(stream, {"spec": "spec", "cps": "cps"}.get(stream, "api"), ctx.seed, shards, n, extra="4" if stream == "spec" else "")
+        summary, mism, pv, errs = run_stream_shards(stream, {"spec": "spec", "cps": "cps", "searcher": "searcher"}.get(stream, "api"), ctx.seed, shards, n, extra="4" if stream == "spec" else "", feat="pattern" if stream == "searcher" else "default")
         for e in errs: broken.append("pipeline: " + e)
     ctx.note("correspondence(api): %s mismatches=%d propviol(all kinds)=%d" % (summary, len(mism), len(pv)))
     mine = [pv_case(l) for l in pv if parse_kv(l).get("prop") in kinds]
@@ -392,6 +396,54 @@ def replay_tables(ctx, path):
 PROPS = {}
 for _p in EXEC_PROPS: PROPS[_p] = (run_exec, replay_exec)
 for _p in ("C10", "C11"): PROPS[_p] = (run_tables, replay_tables)
+
+# ------------------------------------------------------------------ C19
+def run_c19(ctx):
+    fr = front(ctx)
+    broken = list(fr["broken"])
+    summary, pv = {}, []
+    # the unsafe inventory against the reviewed allowlist
+    tg = json.load(open(os.path.join(GEN, "typegraph.json")))
+    allow = set(l.strip() for l in open(os.path.join(V, "known_unsafe.txt")) if l.strip() and not l.startswith("#"))
+    new_unsafe = [u for u in tg["unsafe"] if u not in allow]
+    if new_unsafe: broken.append("unsafe inventory: %d site(s) not in known_unsafe.txt: %s" % (len(new_unsafe), new_unsafe[:4]))
+    hazards = tg["static_mut"] + tg["interior"] + tg["mut_methods"] + tg["bad_fields"]
+    if not any("-BUILD-FAILED" in b for b in broken):
+        shards, n = (4, 150) if ctx.tier == "quick" else (16, 4000)
+        hb = harness_bin()
+        cmds = ["%s threads %d %d" % (hb, ctx.seed * 1000 + k, n) for k in range(shards)]
+        with concurrent.futures.ThreadPoolExecutor(max_workers=4) as ex:
+            for rc, out in ex.map(lambda c: sh(c, 900), cmds):
+                if rc != 0: broken.append("pipeline: threads harness rc=%d %s" % (rc, out[-300:]))
+                for line in out.split("\n"):
+                    if line.startswith("SUMMARY"):
+                        for k, v in parse_kv(line).items(): summary[k] = summary.get(k, 0) + int(v)
+                    elif line.startswith("PROPVIOL"): pv.append(line)
+    ctx.note("threads: %s propviol=%d; type-graph hazards=%d, unsafe sites=%d (new: %d)" % (summary, len(pv), len(hazards), len(tg["unsafe"]), len(new_unsafe)))
+    reported = 0
+    for l in pv[:3]:
+        c = pv_case(l)
+        path = write_replay(ctx, "input", dict(kind="failing-input", stream="threads", flags=c["flags"], pattern=c["pat"], haystack_hex=c["hay"].hex(), detail=c["detail"]))
+        report_violation(ctx, path); reported += 1
+    if hazards and reported == 0:
+        # a shared-mutability site is a concrete counterexample to "searching never mutates shared state" only if a run differs;
+        # none was observed, so it is reported as a broken obligation naming the site
+        broken.append("type graph: " + "; ".join(hazards[:6]))
+    if broken and reported == 0:
+        path = write_replay(ctx, "tie", dict(kind="broken-obligation", broken=broken,
+                                             note="type_graph_frozen or the unsafe inventory no longer checks; the threads harness observed no differing result"))
+        report_violation(ctx, path, no_input=True)
+    nth = len(fr["theorems"])
+    cov = dict(obligations=max(nth, 1), discharged=fr["discharged"] if nth else 0,
+               checker_cmd="tools/gen_typegraph.py && make theories/Properties/C19.vo && coqc Print Assumptions; rvharness threads",
+               trusted_base=TRUSTED_BASE + ["tools/gen_typegraph.py is a textual scan (regex level) of /repo/src; rustc's auto-trait derivation (Send/Sync asserted at compile time in the harness)"],
+               evaluations=summary.get("runs", 0), distinct_nontrivial=summary.get("nontrivial", 0),
+               rule="8 threads x shared &Regex and a clone x 12 queries per regex in different orders, compared with the sequential results; plus a reversed sequential pass; non-trivial = a regex with at least one match",
+               samples=[dict(unsafe_sites=tg["unsafe"][:5], statics=tg["statics"])], theorems=fr["theorems"], programs=max(summary.get("cases", 0), 1), disagreements_checked=0)
+    level = "proof" if nth and fr["discharged"] == nth and not broken else "translation_validation"
+    write_evidence(ctx, level, cov, ["thread interleavings actually exercised are whatever the OS scheduler produced"])
+    return 1 if ctx.violations else 0
+PROPS["C19"] = (run_c19, lambda ctx, path: run_c19(ctx))
 for _p in API_PROPS: PROPS[_p] = (run_api, replay_api)
 
 def run(ctx):
